@@ -60,7 +60,7 @@ PROPS = {
            "every completion order, duplicates, unknown ids, every position of a throwing callable) the root completes iff, when, and with exactly the outcome "
            "the compositional denotation written from the documentation prescribes. Tie: the same machine is compared event by event with the real library "
            "on generated expressions x scripts (K2)."
-           "Calc2 (tie + theorem thrown_store_is_error): a value whose copy throws when an algorithm stores it (finally, let_value, when_all, when_any, done_as_optional) surfaces as set_error at that node and finally's completion sender still runs."),
+           "Calc2 REFINES Calc on the common fragment (theorem C05_calc2_refines_calc: erasing lifetime/context events from the Calc2 run of the embedded expression gives exactly the Calc run, for ALL expressions and scripts), so the denotation theorem holds for the second-generation machine too (C05_calc2_result). Calc2 (tie + theorem thrown_store_is_error): a value whose copy throws when an algorithm stores it (finally, let_value, when_all, when_any, done_as_optional) surfaces as set_error at that node and finally's completion sender still runs."),
   "note": TB + "when_any, retry_when, repeat_effect_until, into_variant, variant_sender, defer/just_from, via/on, sync_wait are not in the Calc model yet; values are ints.",
   "design_ref": "5/C05",
  },
